@@ -363,10 +363,283 @@ def bytestr(src, name, out):
     out.append("Definition %s : list N := [%s]. (* %r *)" % (name, "; ".join(str(x) for x in b), m.group(1)))
 
 
+# ---------------------------------------------------------------- C06: format tie
+
+def coq_str(x):
+    return '"%s"%%string' % x.replace('"', '""')
+
+
+def all_fn_bodies(src, name):
+    res = []
+    for m in re.finditer(r"fn\s+%s\s*(?:<[^>]*>)?\s*\(" % re.escape(name), src):
+        i = src.index("{", m.end())
+        depth, j = 0, i
+        while True:
+            if src[j] == "{":
+                depth += 1
+            elif src[j] == "}":
+                depth -= 1
+                if depth == 0:
+                    break
+            j += 1
+        res.append(src[i + 1:j])
+    return res
+
+
+def split_args(s):
+    """top-level comma split of a call's argument text"""
+    out, depth, cur = [], 0, ""
+    for ch in s:
+        if ch in "([{":
+            depth += 1
+        elif ch in ")]}":
+            depth -= 1
+        if ch == "," and depth == 0:
+            out.append(cur)
+            cur = ""
+        else:
+            cur += ch
+    if cur.strip():
+        out.append(cur)
+    return [re.sub(r"\s+", " ", a).strip() for a in out]
+
+
+def calls(src, fname):
+    """argument lists of every call `fname(...)` (balanced parentheses)"""
+    res = []
+    for m in re.finditer(re.escape(fname) + r"\s*\(", src):
+        i = m.end()
+        depth, j = 1, i
+        while depth:
+            if src[j] == "(":
+                depth += 1
+            elif src[j] == ")":
+                depth -= 1
+            j += 1
+        res.append(split_args(src[i:j - 1]))
+    return res
+
+
+def struct_fields(src, name):
+    m = re.search(r"struct\s+%s\s*\{(.*?)\n\}" % name, src, re.S)
+    if not m:
+        raise ParseError("struct " + name)
+    body = re.sub(r"//[^\n]*", "", m.group(1))
+    fields = re.findall(r"(?:pub(?:\(crate\))?\s+)?(\w+)\s*:\s*([^,\n]+(?:<[^>]*>)?)\s*,", body)
+    if not fields:
+        raise ParseError("struct fields " + name)
+    return [(a, re.sub(r"\s+", " ", b).strip()) for a, b in fields]
+
+
+def format_tie(out, enc, ecc, lib, comp, config):
+    nocom = lambda t: re.sub(r"//[^\n]*", "", t)
+    enc, ecc, lib, comp, config = map(nocom, (enc, ecc, lib, comp, config))
+    out.append("(* ---- format v1 (C06): nonce construction, counters, key wrapping, layer order, layouts ---- *)")
+    # build_nonce: slice copies into the 12-byte array -> concatenation
+    fb = find_fn_body(enc, "build_nonce")
+    sig = re.search(r"fn\s+build_nonce\s*\(\s*(\w+)\s*:\s*\[u8;\s*NONCE_SIZE\]\s*,\s*(\w+)\s*:\s*u32\s*\)\s*->\s*Nonce", enc)
+    if not fb or not sig:
+        raise ParseError("build_nonce signature")
+    a_pre, a_ctr = sig.group(1), sig.group(2)
+    stmts = [x.strip() for x in fb[0].split(";") if x.strip()]
+    if len(stmts) != 4 or stmts[0] != "let mut nonce = Nonce::default()" or stmts[3] != "nonce":
+        raise ParseError("build_nonce body shape")
+    m1 = re.fullmatch(r"nonce\[\.\.NONCE_SIZE\]\.copy_from_slice\(&(\w+)\)", stmts[1])
+    m2 = re.fullmatch(r"nonce\[NONCE_SIZE\.\.\]\.copy_from_slice\(&(\w+)\.to_(be|le)_bytes\(\)\)", stmts[2])
+    if not m1 or not m2 or m1.group(1) != a_pre or m2.group(1) != a_ctr:
+        raise ParseError("build_nonce copies")
+    conv = "be_bytes" if m2.group(2) == "be" else "(fun w v => le_bytes w v)"
+    out.append("(* mla/src/layers/encrypt.rs:%d fn build_nonce *)" % fb[1])
+    out.append("Definition build_nonce (%s : list N) (%s : N) : list N := %s ++ %s 4 %s." % (a_pre, a_ctr, a_pre, conv, a_ctr))
+    if not re.search(r"pub type Nonce = \[u8; NONCE_AES_SIZE\];", read("mla/src/crypto/aesgcm.rs")):
+        raise ParseError("type Nonce")
+
+    def str_list(name, items):
+        out.append("Definition %s : list string := [%s]." % (name, "; ".join(coq_str(i) for i in items)))
+
+    def triple_list(name, items):
+        out.append("Definition %s : list (string * string * string) := [%s]." % (
+            name, "; ".join("(%s, %s, %s)" % tuple(coq_str(x) for x in it) for it in items)))
+
+    # every cipher construction of the encryption layer and of the key wrapping: (key, nonce, associated data)
+    for nm, src in (("ENC_AESGCM_NEW", enc), ("ECC_AESGCM_NEW", strip_tests(ecc))):
+        cs = calls(src, "AesGcm256::new")
+        if not cs or any(len(c) != 3 for c in cs):
+            raise ParseError(nm)
+        triple_list(nm, [(c[0], c[1], "EMPTY" if c[2] == 'b""' else c[2]) for c in cs])
+    # counter fields: initial values and steps
+    inits = re.findall(r"\b(current_ctr|current_chunk_number)\s*:\s*(\d+)\s*,", enc)
+    steps = re.findall(r"self\.(current_ctr|current_chunk_number)\s*(\+=|-=|=)\s*(\d+)\s*;", enc)
+    out.append("Definition ENC_CTR_INITS : list (string * N) := [%s]." % "; ".join("(%s, %s)" % (coq_str(a), b) for a, b in inits))
+    out.append("Definition ENC_CTR_STEPS : list (string * string * N) := [%s]." % "; ".join("(%s, %s, %s)" % (coq_str(a), coq_str(o), b) for a, o, b in steps))
+    # derive_key: D-H, then HKDF<hash>(salt, shared).expand(info) into [0u8; size]
+    fb = find_fn_body(ecc, "derive_key")
+    if not fb:
+        raise ParseError("derive_key")
+    body = fb[0]
+    m_dh = re.search(r"let mut shared_secret = (\w+)\.diffie_hellman\((\w+)\);", body)
+    m_h = re.search(r"let hkdf: Hkdf<(\w+)> = Hkdf::new\((\w+), shared_secret\.as_bytes\(\)\);", body)
+    m_o = re.search(r"let mut output = \[0u8; (\w+)\];", body)
+    m_e = re.search(r"hkdf\.expand\((\w+), &mut output\)\?;", body)
+    m_r = re.search(r"Ok\(output\)\s*$", body.strip())
+    if not (m_dh and m_h and m_o and m_e and m_r):
+        raise ParseError("derive_key body")
+    use = re.search(r"use\s+(\w+)::%s;" % m_h.group(1), ecc)
+    str_list("DERIVE_KEY", [m_dh.group(1), m_dh.group(2), (use.group(1) + "::" if use else "") + m_h.group(1), m_h.group(2), m_e.group(1), m_o.group(1)])
+    # layer stacking order, from the raw file upwards, in the three from_config functions
+    bodies = all_fn_bodies(lib, "from_config")
+    if len(bodies) != 3:
+        raise ParseError("from_config x%d" % len(bodies))
+    for nm, body in zip(("WRITER", "READER", "FAILSAFE"), bodies):
+        tests = re.findall(r"if\s+config\.(?:is_layers_enabled|layers_enabled\.contains)\(Layers::(\w+)\)\s*\{\s*(\w+)\s*=\s*Box::new\((\w+)::new\(\s*(\w+)", body)
+        if not tests or any(t[1] != t[3] for t in tests):
+            raise ParseError("layer tests of " + nm)
+        out.append("Definition %s_LAYER_ORDER : list N := [%s]." % (nm, "; ".join("LAYER_" + t[0] for t in tests)))
+        str_list("%s_LAYER_TYPES" % nm, [t[2] for t in tests])
+    # layouts (bincode serialises the fields in declaration order)
+    for nm, src in (("KeyAndTag", ecc), ("MultiRecipientPersistent", ecc), ("EncryptionPersistentConfig", enc),
+                    ("ArchivePersistentConfig", config), ("SizesInfo", comp), ("FileInfo", lib)):
+        f = struct_fields(src, nm)
+        out.append("Definition STRUCT_%s : list (string * string) := [%s]." % (nm, "; ".join("(%s, %s)" % (coq_str(a), coq_str(b)) for a, b in f)))
+    # bincode options of the header and of the two footers
+    out.append("Definition BINCODE_FIXINT_SITES : N := %d." % len(re.findall(r"\.with_fixint_encoding\(\)", lib)))
+    out.append("Definition BINCODE_FIXINT_SITES_COMPRESS : N := %d." % len(re.findall(r"\.with_fixint_encoding\(\)", comp)))
+    out.append("Definition BINCODE_VARINT_SITES : N := %d." % len(re.findall(r"\.with_varint_encoding\(\)", lib + comp)))
+    m = re.search(r"let format_version = src\.read_u32::<(\w+)>\(\)\?;", lib)
+    m2 = re.search(r"dest\.write_u32::<(\w+)>\(self\.format_version\)\?;", lib)
+    str_list("VERSION_ENDIAN", [m.group(1) if m else "?", m2.group(1) if m2 else "?"])
+
+
+def keys_c19(out):
+    """C19: constants and call shapes of `mlar keygen --seed` / `mlar keyderive` and of
+    curve25519-parser's generate_keypair.  Fails closed like everything else here."""
+    import codecs
+
+    def blist(b):
+        return "[%s]" % "; ".join(str(x) for x in b)
+
+    def ident(name, val):
+        out.append("Definition %s : list N := %s. (* %r *)" % (name, blist(val.encode()), val))
+
+    def bad(name, why=""):
+        if why:
+            out.append("(* %s: %s *)" % (name, why))
+        out.append("Definition %s_untranslatable : unit := tt." % name)
+
+    out.append("(* mlar/src/main.rs keygen / apply_derive / keyderive (C19) *)")
+    try:
+        main_rs = strip_tests(read("mlar/src/main.rs"))
+    except OSError as e:
+        bad("C19_main_rs", str(e))
+        return
+    m = re.search(r"const\s+DERIVE_PATH_SALT\s*:\s*&\[u8;\s*(\d+)\]\s*=\s*b\"([^\"\\]*)\";", main_rs)
+    if m and int(m.group(1)) == len(m.group(2)):
+        out.append("Definition DERIVE_PATH_SALT : list N := %s. (* %r *)" % (blist(m.group(2).encode("ascii")), m.group(2)))
+    else:
+        bad("DERIVE_PATH_SALT")
+    out.append("Section KeysKernels.")
+    out.append("  Variable hash_digest : list N -> list N -> list N.   (* hash name -> data -> digest *)")
+    out.append("  Variable hkdf_new_expand : list N -> option (list N) -> list N -> list N -> N -> list N.   (* hash name, salt, ikm, info, L *)")
+    # keygen: hseed = [0u8; n]; hseed.copy_from_slice(&H::digest(seed.as_bytes())[a..b]); R::from_seed(hseed)
+    fb = find_fn_body(main_rs, "keygen")
+    ok = False
+    if fb:
+        body = re.sub(r"//[^\n]*", "", fb[0])
+        m1 = re.search(r"let mut hseed = \[0u8; (\d+)\];\s*hseed\.copy_from_slice\(&(\w+)::digest\(seed\.as_bytes\(\)\)\[(\d+)\.\.(\d+)\]\);\s*(\w+)::from_seed\(hseed\)", body)
+        m2 = re.search(r"let key_pair = generate_keypair\(&mut csprng\)", body)
+        m3 = re.search(r"output_pub\s*\.write_all\(key_pair\.public_as_pem\(\)\.as_bytes\(\)\)", body)
+        m4 = re.search(r"output_priv\s*\.write_all\(&key_pair\.private_der\)", body)
+        if m1 and m2 and m3 and m4 and int(m1.group(4)) - int(m1.group(3)) == int(m1.group(1)):
+            ok = True
+            out.append("  (* mlar/src/main.rs:%d keygen: the generator seed *)" % fb[1])
+            out.append("  Definition keygen_hseed (seed_as_bytes : list N) : list N * N * N :=\n    (hash_digest %s seed_as_bytes, %s, %s)." % (blist(m1.group(2).encode()), m1.group(3), m1.group(4)))
+            out.append("  Definition KEYGEN_RNG : list N := %s. (* %r *)" % (blist(m1.group(5).encode()), m1.group(5)))
+    if not ok:
+        bad("  keygen_hseed", "keygen has not the expected shape")
+    # apply_derive
+    fb = find_fn_body(main_rs, "apply_derive")
+    ok = False
+    if fb:
+        body = re.sub(r"//[^\n]*", "", fb[0])
+        m1 = re.fullmatch(
+            r"\s*let hkdf: Hkdf<(\w+)> = Hkdf::new\(Some\((\w+)\), &src\.to_bytes\(\)\);\s*"
+            r"let mut seed = \[0u8; (\d+)\];\s*"
+            r"hkdf\s*\.expand\(path\.as_bytes\(\), &mut seed\)\s*\.expect\(\"[^\"]*\"\);\s*"
+            r"src\.zeroize\(\);\s*seed\s*", body)
+        if m1 and m1.group(2) == "DERIVE_PATH_SALT":
+            ok = True
+            out.append("  (* mlar/src/main.rs:%d apply_derive *)" % fb[1])
+            out.append("  Definition apply_derive (path_as_bytes src_to_bytes : list N) : list N :=\n    hkdf_new_expand %s (Some DERIVE_PATH_SALT) src_to_bytes path_as_bytes %s." % (blist(m1.group(1).encode()), m1.group(3)))
+    if not ok:
+        bad("  apply_derive", "apply_derive has not the expected shape")
+    out.append("End KeysKernels.")
+    # keyderive: the loop
+    fb = find_fn_body(main_rs, "keyderive")
+    ok = False
+    if fb:
+        body = re.sub(r"//[^\n]*", "", fb[0])
+        m1 = re.search(r"let mut csprng = (\w+)::from_seed\(apply_derive\(path, secret\)\);\s*"
+                       r"key_pair =\s*Some\(generate_keypair\(&mut csprng\)\.expect\(\"[^\"]*\"\)\);\s*"
+                       r"secret = parse_openssl_25519_privkey\(&key_pair\.as_ref\(\)\.unwrap\(\)\.private_der\)\.unwrap\(\);", body)
+        m2 = re.search(r"parse_openssl_25519_privkey\(&buf\)\.expect\(", body)
+        m3 = re.search(r"output_pub\s*\.write_all\(key_pair\.public_as_pem\(\)\.as_bytes\(\)\)", body)
+        m4 = re.search(r"output_priv\s*\.write_all\(&key_pair\.private_der\)", body)
+        if m1 and m2 and m3 and m4:
+            ok = True
+            out.append("Definition KEYDERIVE_RNG : list N := %s. (* %r *)" % (blist(m1.group(1).encode()), m1.group(1)))
+    if not ok:
+        bad("KEYDERIVE_RNG", "keyderive has not the expected shape")
+    m = re.search(r"^use rand_chacha::(\w+);", main_rs, re.M)
+    if m:
+        ident("RNG_IMPORT", m.group(1))
+    else:
+        bad("RNG_IMPORT")
+    m = re.search(r"^use sha2::\{([^}]*)\};", main_rs, re.M)
+    if m:
+        ident("SHA2_IMPORT", ",".join(sorted(x.strip() for x in m.group(1).split(","))))
+    else:
+        bad("SHA2_IMPORT")
+    out.append("(* curve25519-parser/src/lib.rs: export prefixes, generate_keypair *)")
+    try:
+        cp = strip_tests(read("curve25519-parser/src/lib.rs"))
+    except OSError as e:
+        bad("C19_lib_rs", str(e))
+        return
+    for nm in ("PRIV_KEY_PREFIX", "PUB_KEY_PREFIX"):
+        m = re.search(r"const\s+%s\s*:\s*&\[u8\]\s*=\s*b\"((?:\\x[0-9a-fA-F]{2})*)\";" % nm, cp)
+        if m:
+            out.append("Definition %s : list N := %s." % (nm, blist(codecs.decode(m.group(1), "unicode_escape").encode("latin1"))))
+        else:
+            bad(nm)
+    for nm in ("PRIV_KEY_TAG", "PUB_KEY_TAG"):
+        m = re.search(r"const\s+%s\s*:\s*&str\s*=\s*\"([^\"\\]*)\";" % nm, cp)
+        if m:
+            ident(nm, m.group(1))
+        else:
+            bad(nm)
+    fb = find_fn_body(cp, "generate_keypair")
+    ok = False
+    if fb:
+        body = re.sub(r"//[^\n]*", "", fb[0])
+        m1 = re.search(r"let mut private = \[0u8; (\d+)\];\s*csprng\.fill_bytes\(&mut private\);\s*"
+                       r"let priv_key = StaticSecret::from\(private\);\s*let pubkey = PublicKey::from\(&priv_key\);", body)
+        m2 = re.search(r"private_der\[\.\.PRIV_KEY_PREFIX\.len\(\)\]\.copy_from_slice\(PRIV_KEY_PREFIX\);\s*"
+                       r"private_der\[PRIV_KEY_PREFIX\.len\(\)\.\.\]\.copy_from_slice\(&private\);", body)
+        m3 = re.search(r"public_der\[\.\.PUB_KEY_PREFIX\.len\(\)\]\.copy_from_slice\(PUB_KEY_PREFIX\);\s*"
+                       r"public_der\[PUB_KEY_PREFIX\.len\(\)\.\.\]\.copy_from_slice\(&public\[\.\.\]\);", body)
+        if m1 and m2 and m3:
+            ok = True
+            out.append("Definition GENERATE_PRIVATE_LEN : N := %s. (* lib.rs:%d *)" % (m1.group(1), fb[1]))
+    if not ok:
+        bad("GENERATE_PRIVATE_LEN", "generate_keypair has not the expected shape")
+    out.append("")
+
+
 def main():
     out = []
     out.append("(* GENERATED by tools/src2v.py from %s — do not edit. *)" % REPO)
     out.append("From MLA Require Import Base.")
+    out.append("From Coq Require Import String.")
     out.append("Open Scope N_scope.")
     out.append("")
     env = {}
@@ -573,6 +846,16 @@ def main():
         out.append("(* get_extracted_path: %s *)" % e)
         out.append("Definition component_action_untranslatable : unit := tt.")
     out.append("")
+
+    # ---- C06: format v1 facts that are not plain constants (tools/src2v.py: format_tie)
+    try:
+        format_tie(out, enc, ecc, lib, comp, read("mla/src/config.rs"))
+    except Exception as e:  # fail closed
+        out.append("(* format_tie: %s *)" % e)
+        out.append("Definition format_tie_untranslatable : unit := tt.")
+    out.append("")
+
+    keys_c19(out)
 
     text = "\n".join(out) + "\n"
     outp = os.path.normpath(OUT)
